@@ -11,11 +11,24 @@ def run(ctx):
                 "positions/counts 0..N+1, far, npos; source operands = all strings over {a,b} of length <= 2 plus lengths N and N+1, NUL-containing ones for counted overloads) applied to every reachable state, "
                 "each written once as a generic lambda and executed on the fixed string and on std::basic_string; return values, exceptions and the observable state compared; "
                 "every new state answers ~5k queries (size/data/iteration/at/substr/copy/9 compare/6 search families x 5 overloads incl. defaulted positions/30 relational operators/ostream/conversion/hash). "
-                "small capacities to fixpoint, capacities 200/256 depth-bounded from seeds of length 0,1,N-1,N")
+                "small capacities to fixpoint, capacities 200/256 depth-bounded from seeds of length 0,1,N-1,N. "
+                "ALIAS-WITH-TERMINATOR part: besides the own sub-ranges [p,p+c) with p+c <= size(), every counted overload (pointer+count and iterator pair given as pointers) of "
+                "assign/append/insert/replace is also applied with the own ranges that END ON the string's terminator, p+c == size()+1 for every length c in 0..N+1 (c==1: the terminator alone, "
+                "c==0: the empty range behind it; 200/256: c in {0,1,2,N/2,N,N+1}), crossed with every insert position 0..N+1, every erased count 0..N+1/npos and every iterator range; the model is "
+                "std::basic_string given a DISJOINT copy of that range taken before the call (alias_with_terminator_operation_instances / _transitions). "
+                "NUL-ARGUMENT SEARCH part: all 6 search families x every overload that can carry a NUL (ch == NUL; counted pointer with every count reaching a NUL; std::basic_string argument; fixed-string argument) "
+                "x every string over {a,b,NUL} of length <= 2 with at least one NUL (200/256: 3 of them) x defaulted position and every position of the alphabet (0..N+1, far, npos), asked in every reachable state "
+                "of every layout (nul_argument_search_query_instances / _evaluations)")
     ctx.assumptions += [
         "libstdc++ std::basic_string is the reference; resize(n) is modelled as resize(n, ' ') (documented blank fill)",
         "arguments that alias the target ARE in the alphabet (the string as its own operand, pointers and iterators into its own buffer) wherever std::basic_string defines the call; calls that are undefined for std::string itself (pop_back/front on empty, iterators outside [begin,end]) are not in the alphabet",
         "embedded NUL only through explicitly counted overloads and never in the strlen layout; stream extraction that fails (no token) is not judged",
+        "own ranges that include the terminator put a NUL into the content, so for the strlen layout only the empty range behind the terminator (c == 0) is applied; search ARGUMENTS containing NUL are asked in every layout, "
+        "except that a fixed-string argument with embedded NUL cannot be built in the strlen layout",
+        "append(const_pointer, count) with an own range of c >= 2 elements that ENDS ON the string's own terminator is NOT in the alphabet: source [size()-(c-1), size()+1) and destination [size(), size()+c) share exactly the "
+        "element data()[size()], a formal char_traits::copy overlap of exactly one element (ASan memcpy-param-overlap at xbasic_fixed_string.hpp:1395), shared with libstdc++'s basic_string::append (identical traits copy in its "
+        "no-reallocation path), result judged equal to the model by a probe; neither the C01 equality nor the C02 buffer-bounds statement is contradicted. c == 1 on the terminator, c == 0, the iterator-pair append (std::copy) "
+        "and all ranges ending before the terminator stay in",
         "wchar_t is not instantiated: xbasic_fixed_string<wchar_t> with a stored size is ill-formed on this tree (1u << 32) and the strlen layout only supports char",
         "silent policy: instances whose result would exceed N or whose position is invalid are caller-precondition violations and are skipped",
     ]
